@@ -494,7 +494,7 @@ func TestC06(t *testing.T) {
 		parseCase("size-" + strconv.FormatInt(n, 10))
 		parseCase("rabin-" + strconv.FormatInt(n, 10))
 	}
-	for i, n := 0, e.Pick(2500, 40000); i < n; i++ {
+	for i, n := 0, e.Pick(2500, 30000); i < n; i++ {
 		parseCase(genSpec(r))
 	}
 
@@ -544,7 +544,7 @@ func TestC06(t *testing.T) {
 	bytesCase("buzhash", nil, nil)
 	bytesCase("rabin-16-32-64", nil, nil)
 	bytesCase("rabin-47", bytes.Repeat([]byte{0}, 200), nil)
-	for i, n := 0, e.Pick(600, 12000); i < n; i++ {
+	for i, n := 0, e.Pick(600, 9000); i < n; i++ {
 		ln := r.Intn(260)
 		if r.Intn(6) == 0 {
 			ln = r.Intn(4)
@@ -672,7 +672,7 @@ func TestC06(t *testing.T) {
 			off += L
 		}
 	}
-	for i, n := 0, e.Pick(36, 500); i < n; i++ {
+	for i, n := 0, e.Pick(36, 320); i < n; i++ {
 		total := []int{0, 1, buzMin - 1, buzMin, buzMin + 1, buzMax - 1, buzMax, buzMax + 1, 262144, 262145, 1 << 20, 2096896, 2096897, 3 << 20, 4 << 20}[r.Intn(15)]
 		if r.Intn(2) == 0 {
 			total = r.Intn(3 << 20)
@@ -717,7 +717,7 @@ func TestC06(t *testing.T) {
 	} else {
 		crafted = append(crafted, []seg{run(nocut, buzMax-33), lit(zeroWindow(r)), run(nocut, 1000)}) // cut at max-1
 	}
-	for k := 0; k < e.Pick(3, 40); k++ {
+	for k := 0; k < e.Pick(2, 30); k++ {
 		// random placement of 1..3 windows shortly after min
 		var ss []seg
 		ss = append(ss, run(nocut, buzMin-32+r.Intn(1500)))
